@@ -310,7 +310,7 @@ func checkC04(c *Ctx) {
 	R.Floor("C04-setter", 6)
 
 	// ---- C04-write (shared with C05)
-	if write := c.fn(G, "(*ResponseWriter).Write"); write != nil {
+	if write, respIdx, _ := c.frameEmitter(); write != nil {
 		n := 0
 		for _, ci := range an.Calls(write) {
 			m, _, ok := isBufioWriterMethod(ci.Common())
@@ -319,7 +319,7 @@ func checkC04(c *Ctx) {
 			}
 			n++
 			got := an.Canon(ci.Common().Args[1])
-			R.Check(got == "github.com/go-asn1-ber/asn1-ber.(*Packet).Bytes($1.packet().Packet)", "C04-write", "(*ResponseWriter).Write: bytes written", c.pos(ci), "r.packet().Bytes() of the response parameter", "bytes handed to the stream are "+got)
+			R.Check(got == sprintf("github.com/go-asn1-ber/asn1-ber.(*Packet).Bytes($%d.packet().Packet)", respIdx), "C04-write", "(*ResponseWriter).Write: bytes written", c.pos(ci), "r.packet().Bytes() of the response parameter", "bytes handed to the stream are "+got)
 		}
 		if n != 1 {
 			R.Fail("C04-write", "(*ResponseWriter).Write: one write", c.P.Pos(write.Pos()), sprintf("%d writer.Write calls", n))
